@@ -19,7 +19,7 @@ extern long fmc_thread_switches(int tid);
 // the C01/C02 checks add the run map / wake accounting)
 static inline int rt_start(void) {
   int n = fmc_param("N", 2);
-  fmc_oracles((unsigned)fmc_param("oracles", FMC_O_HEAP | FMC_O_STACK | FMC_O_RECLAIM));
+  fmc_oracles((unsigned)fmc_param("oracles", FMC_O_HEAP | FMC_O_STACK | FMC_O_RECLAIM | FMC_O_OWNER));
   if (fiber_manager_init(n) != FIBER_SUCCESS) fmc_fail("fiber_manager_init failed");
   return n;
 }
